@@ -70,6 +70,8 @@ def generate(seed, tier):
         case["w"] = [[round(0.1 + rng.random(), 3) if a == b else 0.0 for b in range(K)] for a in range(K)]
         case["block_structured"] = True
     case["max_size"] = rng.randint(2, min(N, 5))
+    if rng.random() < 0.25:
+        case["exact_dyadic"] = False  # the non-default approximate sampling of the pairwise interactions
     if mode == "sequences":
         # size sequence first, then a degree sequence with the same total: realisable (from an actual
         # hypergraph) in half of the runs, merely total-matching in the other half
@@ -140,7 +142,8 @@ def _run(case, salt):
         if salt:
             fac.perturb(4)
         sampler = HyMMSBMSampler(u=u, w=w, max_hye_size=case["max_size"] if case["mode"] != "initial" else None,
-                                 burn_in_steps=case["burn_in"], intermediate_steps=case["thin"], seed=case["sut_seed"])
+                                 burn_in_steps=case["burn_in"], intermediate_steps=case["thin"], seed=case["sut_seed"],
+                                 **({"exact_dyadic_sampling": False} if case.get("exact_dyadic") is False else {}))
         kw = {}
         init = None
         if case["mode"] == "initial":
